@@ -136,8 +136,10 @@ def check_absent(ctx, R, k, label, wit, why):
         ctx.violation("absent-key-contains-raises:%s:%s" % (why, type(e).__name__), "%s: %r in R raised %s" % (label, k, type(e).__name__), key=k, **wit)
 
 
-def check_mapping(ctx, R, expected, label, wit, absent=()):
-    """the coherent-mapping laws against an expected key set"""
+def check_mapping(ctx, R, expected, label, wit, absent=(), optional=()):
+    """the coherent-mapping laws against an expected key set; `optional` keys (files whose extension is a supported one in
+    another letter case: whether they are listed is the file system's business) may be yielded or not, but a yielded one
+    must be a full key and one that is not yielded must be absent"""
     _state["in_use"] = True
     _state["writes"] = []
     try:
@@ -154,7 +156,13 @@ def check_mapping(ctx, R, expected, label, wit, absent=()):
                 ctx.violation("len-differs-from-keys:" + label.split(":")[0], "%s: len(R) = %d but iteration yields %d distinct key(s)" % (label, n, len(set(keys))), **wit)
         except Exception as e:
             ctx.violation("len-raises:%s" % type(e).__name__, "%s: len(R) raised %s" % (label, type(e).__name__), **wit)
-        if expected is not None and set(keys) != set(expected):
+        if optional:
+            ctx.count("c20_optional_keys_listed", len(set(keys) & set(optional)))
+            ctx.count("c20_optional_keys_not_listed", len(set(optional) - set(keys)))
+            for k in optional:
+                if k not in keys:
+                    check_absent(ctx, R, k, label, wit, "case-variant-extension-not-listed")
+        if expected is not None and (set(keys) - set(optional)) != set(expected):
             ctx.violation("key-set-wrong:" + label.split(":")[0], "%s: keys %s, expected %s (missing %s, unexpected %s)" % (
                 label, sorted(keys)[:6], sorted(expected)[:6], sorted(set(expected) - set(keys))[:4], sorted(set(keys) - set(expected))[:4]), **wit)
         items = {}
@@ -353,6 +361,25 @@ def execute(mat, ctx):
                     expect[stem] = rec
                 else:
                     absent.append((stem, "unsupported-extension"))
+            # plasmids exported under a supported extension in another letter case (`.GB`, `.Gbk`): whether such a file is listed is
+            # up to the file system (pyfilesystem matches wildcards case-insensitively where the file system says so), so its stem
+            # is an *optional* key - but the registry must be coherent about it either way
+            rcase = gen.rng_for(mat["seed"], PROP, kind, "case-variant", mat["i"])
+            optional = {}
+            if rcase.random() < 0.4:
+                for key, rec in rcase.sample(recs, min(len(recs), rcase.randint(1, 2))):
+                    stem = key + rcase.choice(["_UC", "-export", ""])
+                    if stem in used:
+                        continue
+                    used.add(stem)
+                    e = rcase.choice(exts)
+                    variant = rcase.choice([e.upper(), e.capitalize(), e[:-1] + e[-1].upper()])
+                    if variant in exts:
+                        continue
+                    with F.open("%s.%s" % (stem, variant), "w") as f:
+                        f.write(gb_text(rec))
+                    optional[stem] = rec
+                    ctx.count("c20_files_with_case_variant_extension")
             # a sub-directory whose name is a present stem + a supported extension that is tried *before* the file's own
             for stem in list(expect):
                 ext_of = [e for e in exts if F.isfile("%s.%s" % (stem, e))]
@@ -386,7 +413,8 @@ def execute(mat, ctx):
             ctx.count("c20_directories")
             wit = {"fs": mat["fs"], "files": sorted(F.listdir("/")), "extensions": list(exts), "base": pbase.__name__}
             label = "directory:" + mat["fs"]
-            items = check_mapping(ctx, R, list(expect), label, wit, absent=absent)
+            items = check_mapping(ctx, R, list(expect), label, wit, absent=absent, optional=list(optional))
+            expect = dict(optional, **expect)
             for stem, it in items.items():
                 if it is not None and stem in expect and str(it.entity.record.seq) != str(expect[stem].seq):
                     ctx.violation("directory-item-wrong-plasmid", "%s: R[%r] holds another plasmid's sequence" % (label, stem), key=stem, **wit)
